@@ -347,7 +347,9 @@ class ImplCoverage:
                 "percent": round(100.0 * cov / tot, 1) if tot else None,
                 "functions_never_entered": untouched[:60], "n_never_entered": len(untouched),
                 "least_covered": [{"function": k, "executed": c, "of": n} for k, c, n in partial[:12]],
-                "note": "in-process runs only; lines of the anchored functions executed by this run's correspondences and oracles"}
+                "note": ("in-process runs only; lines of the anchored functions executed by this run's correspondences and oracles"
+                         + ("; 0 lines: this check runs the implementation in child processes (timing with a hard time limit), which the "
+                            "measurement does not see" if tot and cov == 0 else ""))}
 
 
 def main(argv):
